@@ -77,11 +77,17 @@ def admits(exp, obs):
         return exp == obs
     if callable(exp):
         return bool(exp(obs))
+    if isinstance(exp, dict):
+        if "prefix" in exp:
+            return obs.startswith(exp["prefix"])
+        if "not" in exp:
+            return obs != exp["not"] and not obs.startswith("ERR:")
+        raise ValueError(exp)
     return obs in exp
 
 
 def exp_repr(exp):
-    if exp is None or isinstance(exp, str):
+    if exp is None or isinstance(exp, (str, dict)):
         return exp
     if callable(exp):
         return "<predicate %s>" % getattr(exp, "__name__", "?")
@@ -326,7 +332,7 @@ def replay(path):
     print("expected: %s" % (exp,))
     print("recorded: %s" % v["observed"])
     print("now     : %s" % got)
-    good = (exp is None) or (got == exp) or (isinstance(exp, list) and got in exp)
+    good = admits(exp, got) if not (isinstance(exp, str) and exp.startswith("<predicate")) else False
     if good:
         print("replay: the current tree gives the expected observation")
         return 0
